@@ -16,7 +16,7 @@ def run(vid):
         if subprocess.run(["git", "apply", f"/verif/{corpus}/{vid}/patch.diff"], cwd=tmp, capture_output=True).returncode != 0:
             return vid, {"apply": ["patch does not apply"]}
         os.makedirs(tmp + "/.out"); shutil.copy("/verif/known-findings.json", tmp + "/.out/")
-        p = subprocess.run([BIN, "checkall"], env=dict(ENV, VERIF_REPO=tmp, VERIF_DIR=tmp + "/.out"), capture_output=True, text=True)
+        p = subprocess.run([BIN, "checkall"] + os.environ.get("CHECKS", "").split(), env=dict(ENV, VERIF_REPO=tmp, VERIF_DIR=tmp + "/.out"), capture_output=True, text=True)
         res, cur = {}, []
         for l in p.stdout.splitlines():
             m = re.match(r"== (C\d\d) exit=(\d+)", l)
@@ -26,7 +26,7 @@ def run(vid):
                 cur = []
             elif l.startswith("  FINDING") or l.startswith("  UNDECIDED") or "BROKEN" in l:
                 cur.append(l.strip()[:260])
-        if not re.search(r"== C19 exit=", p.stdout):
+        if not re.search(r"== %s exit=" % (os.environ.get("CHECKS", "C19").split()[-1]), p.stdout):
             res["crash"] = [(p.stderr or p.stdout)[-300:]]
         return vid, res
     finally:
@@ -36,7 +36,7 @@ if len(sys.argv) > 2:
     ids = [i for i in ids if any(i.startswith(a) for a in sys.argv[2:])]
 with ThreadPoolExecutor(max_workers=int(os.environ.get("PAR", "6"))) as ex:
     out = list(ex.map(run, ids))
-path = f"/verif/triage/{corpus}-cross.json"
+path = f"/verif/triage/{corpus}-cross.json" if not os.environ.get("CHECKS") else f"/tmp/{corpus}-cross-partial.json"
 old = json.load(open(path)) if os.path.exists(path) and len(sys.argv) > 2 else {}
 old.update({b: r for b, r in out})
 json.dump(old, open(path, "w"), indent=1, sort_keys=True)
